@@ -100,8 +100,8 @@ func run(c *fw.Ctx) {
 					if !c.Thorough() && (n == 64 && p != 4) {
 						continue
 					}
-					if !c.Thorough() && server == "principal" && rep > 0 {
-						continue // one round of principal schedules in the quick tier
+					if server == "principal" && rep >= c.Pick(1, 3) {
+						continue // one round of principal schedules in the quick tier, three in the thorough one
 					}
 					steps := 20
 					if n <= 4 && c.Thorough() {
@@ -194,7 +194,7 @@ func init() {
 			"fault matrix (exhaustive): scripted raw-TCP server {answers before reading, reads k bytes then answers / drops / resets, stalls until the caller cancels, reads all then answers, nobody listens (the dial is refused)} x status (2xx, 307, 4xx, 5xx; optionally after an interim 100 / 103) x {close, drain, hold} x size {0, 10 B, 1 MiB, 8 MiB} x write chunking x caller behaviour x caller-side cancellation point {never, at 0, half-way, after the last Write}; call/return events at the caller and at the inner HTTP client boundary stamped from one counter. " +
 			"calls while an upload is open (exhaustive): client built on {*http.Client, a wrapping type, HTTPClientWithBasicAuth, in-process double} x {Stat, ReadDir, Open, Mkdir, a second complete upload} x {right after Create, between two Writes} x {from the goroutine holding the writer, from another one} against the real handler on a directory; every call must return with its solo result, both uploads stored byte for byte. " +
 			"principal schedules: N users ask one server built on ServePrincipal with ONE options value (fields empty / set) for N different principal URLs at once, every answer compared with the answer of an identical server that has served nothing else. " +
-			"uploads open at once (exhaustive): K in {3, 20, 100} streamed uploads to K different files held open by one caller and finished last-opened-first / first-opened-first / shuffled, by one goroutine or one each, optionally with every seventh upload refused (409), over TCP (with and without waiting for the handler to have started on each) and in process, against the real handler on a directory: every Close returns nil, every file is stored byte for byte. " +
+			"uploads open at once (exhaustive): K in {3, 20, 100} (thorough {2, 8, 20, 65, 200}) streamed uploads to K different files held open by one caller and finished last-opened-first / first-opened-first / shuffled, by one goroutine or one each, optionally with every seventh upload refused (409), over TCP (with and without waiting for the handler to have started on each) and in process, against the real handler on a directory: every Close returns nil, every file is stored byte for byte. " +
 			"sequels (exhaustive in quick but for the status): one call of a client {upload read / not read by the server, Mkdir, Stat, ReadDir, Open, RemoveAll, Copy, Move} is refused by a front end with 403 / 507, 10 Content-Types x {no, short, 4 KiB, DAV:error} body, then the same client uploads to, stats and reads an unrelated resource; the inner *http.Client bounds its connections per host (1; 1 behind HTTPClientWithBasicAuth; thorough also 2 after two refusals). " +
 			"distinct_nontrivial = distinct interleaving signatures (global call/return order per run) + distinct fault-matrix cells.",
 		Assumptions: []string{
